@@ -314,12 +314,16 @@ func isJPEG(buf []byte) bool {
 		buf[1] == 0xd8
 }
 
-// isPNG returns true if the first 4 bytes match a PNG file header.
+// isPNG returns true if the first 8 bytes match the PNG signature.
 func isPNG(buf []byte) bool {
 	return buf[0] == 0x89 &&
 		buf[1] == 0x50 &&
 		buf[2] == 0x4E &&
-		buf[3] == 0x47
+		buf[3] == 0x47 &&
+		buf[4] == 0x0D &&
+		buf[5] == 0x0A &&
+		buf[6] == 0x1A &&
+		buf[7] == 0x0A
 }
 
 // isWebP returns true is the first 12 bytes match a WebP file header.
